@@ -110,7 +110,7 @@ var pipes = []pipe{
 	{steps: []string{"simplify"}, generic: true, copying: true, expect: 's'},
 	{steps: []string{"nodeAlter"}, generic: true, inPlace: true, expect: 's'},
 	{steps: []string{"genDup"}, generic: true, copying: true, expect: 'g'},
-	{steps: []string{"generify"}, generic: true, opts: true},  // a Node is returned as it is
+	{steps: []string{"generify"}, generic: true, opts: true}, // a Node is returned as it is
 	{steps: []string{"genAlter"}, generic: true, opts: true}, // likewise
 }
 
